@@ -22,24 +22,37 @@ def firstMulti : List Arg → Option (Bool × Bool × Bytes × List Bytes)
   | .tok (.prim (.execMulti _ dir ok cmd fixed)) :: _ => some (dir, ok, cmd, fixed)
   | _ :: rest => firstMulti rest
 
-/-- C08 (one `+` primary): every reached path is in exactly one invocation, after the fixed
-    arguments, in visit order; -execdir: one directory per invocation, paths spelled ./name, run in
-    that directory; status non-zero iff the walk had an error, or an invocation failed or could not start -/
+/-- all `+` primaries of the argument list: id, -execdir?, command found?, command, fixed arguments -/
+def allMulti : List Arg → List (Nat × Bool × Bool × Bytes × List Bytes)
+  | [] => []
+  | .tok (.prim (.execMulti id dir ok cmd fixed)) :: rest => (id, dir, ok, cmd, fixed) :: allMulti rest
+  | _ :: rest => allMulti rest
+
+/-- C08: for every `+` action (they are told apart by their command and fixed arguments) every
+    reached path is in exactly one invocation, after the fixed arguments, in visit order;
+    -execdir: one directory per invocation, paths spelled ./name, run in that directory; find's
+    status is non-zero iff the walk had an error, or some invocation (of whichever action) failed
+    or could not be started -/
 def predMulti (follow : Follow) (roots : List (Bytes × Option (Node Attr))) (args : List Arg) (script : List Nat)
     (obsSt : Nat) (obsOut : Bytes) (obsExecs : List (Bytes × List Bytes)) (norm : Bytes → Bytes) : Bool :=
-  match refRunX follow roots args script, firstMulti args with
-  | some (r, reached), some (dir, ok, cmd, fixed) =>
-    let pre := cmd :: fixed
-    let wellFormed := obsExecs.all fun e => e.2.take pre.length == pre
-    -- every delivered path with the directory its command ran in, in order
-    let delivered := obsExecs.flatMap fun e => (e.2.drop pre.length).map fun a => (e.1, a)
-    let expected := reached.flatMap fun e => e.argv.map fun a =>
-      ((match e.cwd with | none => [46] | some d => norm d), a)
+  match refRunX follow roots args script with
+  | some (r, reached) =>
+    let ms := allMulti args
+    if ms.isEmpty then false else
+    let known := obsExecs.all fun e => ms.any fun m => e.2.take (m.2.2.2.2.length + 1) == m.2.2.2.1 :: m.2.2.2.2
+    let perAction := ms.all fun (id, _, ok, cmd, fixed) =>
+      let pre := cmd :: fixed
+      let mine := obsExecs.filter fun e => e.2.take pre.length == pre
+      let delivered := mine.flatMap fun e => (e.2.drop pre.length).map fun a => (e.1, a)
+      let tag := (toString id).toUTF8.toList
+      let expected := (reached.filter fun e => e.argv.head? == some tag).map fun e =>
+        ((match e.cwd with | none => [46] | some d => norm d), e.argv.getD 1 [])
+      if ok then delivered == expected else mine.isEmpty
     let failed := (List.range obsExecs.length).any fun i => script.getD i 0 != 0
-    let expectFail := r.ret != 0 || (if ok then failed else !expected.isEmpty)
-    obsOut == r.out && wellFormed && ((obsSt != 0) == expectFail) &&
-      (if ok then delivered == expected else obsExecs.isEmpty) && (dir || true)
-  | none, _ => obsSt != 0
-  | _, none => false
+    let missingUsed := ms.any fun (id, _, ok, _, _) =>
+      !ok && reached.any fun e => e.argv.head? == some (toString id).toUTF8.toList
+    let expectFail := r.ret != 0 || failed || missingUsed
+    obsOut == r.out && known && perAction && ((obsSt != 0) == expectFail)
+  | none => obsSt != 0
 
 end FuModel.Pred.C08
